@@ -564,6 +564,83 @@ def reshape_conditionals(fn, r, stats, key):
         stats.append((key, 'conditional spelling x%d' % changed[0]))
 
 
+def _loop_as_comprehension(init, loop):
+    """`X = []` / `for t in it: [if c:] X.append(e)`  ->  `X = [e for t in it if c]` (also nested fors, and `X = {}` / `X[k] = v`); None otherwise"""
+    if not (isinstance(init, ast.Assign) and len(init.targets) == 1 and isinstance(init.targets[0], ast.Name) and isinstance(loop, ast.For) and not loop.orelse):
+        return None
+    x = init.targets[0].id
+    islist = isinstance(init.value, ast.List) and not init.value.elts
+    isdict = isinstance(init.value, ast.Dict) and not init.value.keys
+    if not (islist or isdict):
+        return None
+    gens = []
+    cur = loop
+    while True:
+        gen = ast.comprehension(target=cur.target, iter=cur.iter, ifs=[], is_async=0)
+        gens.append(gen)
+        body = cur.body
+        while len(body) == 1 and isinstance(body[0], ast.If) and not body[0].orelse:
+            gen.ifs.append(body[0].test)
+            body = body[0].body
+        if len(body) == 1 and isinstance(body[0], ast.For) and not body[0].orelse:
+            cur = body[0]
+            continue
+        break
+    if len(body) != 1:
+        return None
+    s = body[0]
+    uses_x = lambda e: any(isinstance(n, ast.Name) and n.id == x for n in ast.walk(e))
+    if any(uses_x(g.iter) or any(uses_x(i) for i in g.ifs) for g in gens):
+        return None
+    if islist and isinstance(s, ast.Expr) and isinstance(s.value, ast.Call) and isinstance(s.value.func, ast.Attribute) and s.value.func.attr == 'append' \
+            and isinstance(s.value.func.value, ast.Name) and s.value.func.value.id == x and len(s.value.args) == 1 and not uses_x(s.value.args[0]):
+        comp = ast.ListComp(elt=s.value.args[0], generators=gens)
+    elif isdict and isinstance(s, ast.Assign) and len(s.targets) == 1 and isinstance(s.targets[0], ast.Subscript) and isinstance(s.targets[0].value, ast.Name) \
+            and s.targets[0].value.id == x and not uses_x(s.targets[0].slice) and not uses_x(s.value):
+        comp = ast.DictComp(key=s.targets[0].slice, value=s.value, generators=gens)
+    else:
+        return None
+    new = ast.copy_location(ast.Assign(targets=[init.targets[0]], value=ast.copy_location(comp, init)), init)
+    return ast.fix_missing_locations(new)
+
+
+def loops_to_comprehensions(fn, r, stats, key):
+    """an accumulation loop and the comprehension that says the same are one program; where the reference has the comprehension and the
+    current function has the loop, read the loop as the comprehension"""
+    import collections
+    loc = set(local_names(fn))
+    have = collections.Counter(d for d, _ in r.get('stmts', []))
+    cur = collections.Counter(stmt_blind(x, loc)[0] for x in statements(fn))
+    done = [0]
+
+    def blk(stmts):
+        i = 0
+        while i < len(stmts):
+            s = stmts[i]
+            for f in ('body', 'orelse', 'finalbody'):
+                v = getattr(s, f, None)
+                if isinstance(v, list) and v and isinstance(v[0], ast.stmt) and not isinstance(s, (ast.FunctionDef, ast.AsyncFunctionDef, ast.ClassDef)):
+                    blk(v)
+            if isinstance(s, ast.Try):
+                for hd in s.handlers:
+                    blk(hd.body)
+            if i + 1 < len(stmts):
+                c = _loop_as_comprehension(s, stmts[i + 1])
+                if c is not None:
+                    loc2 = loc | {n.id for n in ast.walk(c) if isinstance(n, ast.Name) and isinstance(n.ctx, ast.Store)}
+                    d = stmt_blind(c, loc2)[0]
+                    if cur[d] < have[d] or stmt_blind(ast.Expr(value=c.value), loc2)[0] in r.get('comps', ()):
+                        stmts[i:i + 2] = [c]
+                        cur[d] += 1
+                        done[0] += 1
+                        continue
+            i += 1
+    blk(fn.body)
+    if done[0] and stats is not None:
+        stats.append((key, 'read %d accumulation loops as comprehensions' % done[0]))
+    return done[0]
+
+
 def _settle(fn, r, stats, key):
     """is fn its reference up to a renaming of def-use webs? If so give every web its reference name."""
     from . import webs
@@ -674,6 +751,26 @@ def _inline_new_temps(fn, ref_names, params, stats, key):
         block, idx, st = found
         pos = order[id(st)]
         loads = [n for n in ast.walk(fn) if isinstance(n, ast.Name) and n.id == v and isinstance(n.ctx, ast.Load)]
+        # the temporary must be a NAME FOR A VALUE: never the handle of an object that is modified through it ...
+        handle = False
+        for n in ast.walk(fn):
+            if isinstance(n, (ast.Subscript, ast.Attribute)) and isinstance(n.ctx, (ast.Store, ast.Del)):
+                root = n.value
+                while isinstance(root, (ast.Attribute, ast.Subscript)):
+                    root = root.value
+                if isinstance(root, ast.Name) and root.id == v:
+                    handle = True
+            if isinstance(n, ast.Call) and isinstance(n.func, ast.Attribute) and n.func.attr in MUTATORS and isinstance(n.func.value, ast.Name) and n.func.value.id == v:
+                handle = True
+            if isinstance(n, ast.AugAssign) and isinstance(n.target, ast.Name) and n.target.id == v:
+                handle = True
+        if handle:
+            continue
+        # ... and a value used several times must not be a fresh mutable object (two uses would be two objects)
+        if len(loads) > 1 and any(isinstance(n, (ast.List, ast.Dict, ast.Set, ast.ListComp, ast.DictComp, ast.SetComp, ast.GeneratorExp)) or
+                                  (isinstance(n, ast.Call) and (n.func.id if isinstance(n.func, ast.Name) else getattr(n.func, 'attr', None)) not in IMMUTABLE_RESULT)
+                                  for n in ast.walk(st.value)):
+            continue
         if not _pure(st.value):
             # an expression with calls may only move into the very next statement, used once, outside any loop/comprehension/lambda of it
             nxt = block[idx + 1] if idx + 1 < len(block) else None
@@ -727,6 +824,8 @@ def _inline_new_temps(fn, ref_names, params, stats, key):
     return done
 
 
+IMMUTABLE_RESULT = {'len', 'int', 'str', 'float', 'bool', 'type', 'isinstance', 'abs', 'min', 'max', 'lower', 'upper', 'startswith', 'endswith', 'is_int', 'is_str', 'is_num',
+                    'is_date', 'is_pd', 'is_df', 'is_arr', 'is_ts', 'is_series', 'is_nan', 'tuple', 'as_tuple', 'hasattr', 'callable', 'strip', 'get'}
 MUTATORS = {'append', 'extend', 'insert', 'pop', 'remove', 'clear', 'update', 'setdefault', 'sort', 'reverse', 'add', 'discard', 'popitem'}
 
 
@@ -792,7 +891,10 @@ def normalise_repo(trees, use_reference=True, stats=None):
                 if not _settle(fn, r, stats, key):
                     reshape_conditionals(fn, r, stats, key)
                     vote_rename(fn, r, stats, key)
-                    if inline_new_temps(fn, r, stats, key):
+                    k = inline_new_temps(fn, r, stats, key)
+                    if loops_to_comprehensions(fn, r, stats, key):
+                        k += inline_new_temps(fn, r, stats, key)
+                    if k:
                         reshape_conditionals(fn, r, stats, key)
                     fn.body = flatten_block(fn.body)
                     fn._drift = not _settle(fn, r, stats, key)
@@ -810,7 +912,8 @@ def make_reference(trees):
             f2 = copy.deepcopy(fn)
             webs.split(f2, fn_scope_locals(f2))
             h, order = blind(f2)
-            out[key] = dict(blind=h, names=order, stmts=stm, plain=blind(fn)[0])
+            comps = sorted({stmt_blind(ast.Expr(value=c), set(local_names(fn)))[0] for c in ast.walk(fn) if isinstance(c, (ast.ListComp, ast.DictComp, ast.SetComp))})
+            out[key] = dict(blind=h, names=order, stmts=stm, plain=blind(fn)[0], comps=comps)
     return dict(functions=out)
 
 
